@@ -2,3 +2,6 @@ import BycycleModel.Basic
 import BycycleModel.Runs
 import BycycleModel.Wire
 import BycycleModel.Detect
+import BycycleModel.Zerox
+import BycycleModel.Extrema
+import BycycleModel.Cyclepoints
